@@ -31,6 +31,7 @@ class Engine(ExprMixin, CallMixin, BuiltinMixin, VerifyMixin):
         self.reg = reg
         self.repo = repo or Repo()
         CTX.reset(scope=scope, strmode=strmode)
+        CTX.always_truthy = set(n for n, d in reg.classes.items() if d.get("__truthy__") is True)
         self.obls = []
         self.raised = []
         self.spec_depth = 0
